@@ -117,6 +117,8 @@ class Origins:
             decl = t[4] or ""
             dty = t[5] if len(t) > 5 else None
             args = t[2]
+            if name.endswith(("::leading_zeros", "::trailing_zeros", "::count_ones", "::count_zeros", "::leading_ones", "::trailing_ones", "::ilog2")):
+                return ("bounded", 8, "bit count of an integer (<= 128)")
             if name.endswith(LEN_FNS) or decl.endswith(LEN_FNS):
                 return ("len", name.split("::")[-1] + "() of data already in memory")
             m = re.search(r"impl std::convert::(?:Try)?From<(\w+)> for \w+", name)
